@@ -108,6 +108,7 @@ class SetObj:
     sv: Optional[SV] = None
     frozen: bool = False
     enum: Optional[SV] = None  # a duplicate-free symbolic list known to enumerate exactly this set
+    parent: Any = None  # (dict heap id, key value): this set is the bucket of a symbolic defaultdict(set)
 
 
 @dataclass(frozen=True)
